@@ -120,26 +120,34 @@ func wireError(url string) (code int64, msg string, err error) {
 	return r.Error.Code, r.Error.Message, nil
 }
 
-// sentinelNamesInSource lists the Err* variables of core/da/errors.go (completeness of Sentinels).
+// notAWireSentinel: Err* variables of package core/da that are not part of the DA error vocabulary crossing the wire.
+// ErrHeightFromFutureStr is the in-process DummyDA's own value (dummy.go) with the TEXT of ErrHeightFromFuture; the
+// node classifies it by that text, like the real sentinel.
+var notAWireSentinel = map[string]bool{"ErrHeightFromFutureStr": true}
+
+// sentinelNamesInSource lists the exported Err* package variables of package core/da, whichever file of the package
+// declares them (completeness of Sentinels).
 func sentinelNamesInSource() ([]string, error) {
 	root := os.Getenv("VERIF_REPO")
 	if root == "" {
 		root = "/repo"
 	}
-	f, err := parser.ParseFile(token.NewFileSet(), hx.SourcePath(filepath.Join(root, "core/da/errors.go")), nil, 0)
-	if err != nil {
-		return nil, err
-	}
 	var out []string
-	for _, d := range f.Decls {
-		g, ok := d.(*ast.GenDecl)
-		if !ok || g.Tok != token.VAR {
-			continue
+	for _, src := range hx.SourceFiles(filepath.Join(root, "core/da")) {
+		f, err := parser.ParseFile(token.NewFileSet(), src, nil, 0)
+		if err != nil {
+			return nil, err
 		}
-		for _, s := range g.Specs {
-			for _, n := range s.(*ast.ValueSpec).Names {
-				if strings.HasPrefix(n.Name, "Err") {
-					out = append(out, n.Name)
+		for _, d := range f.Decls {
+			g, ok := d.(*ast.GenDecl)
+			if !ok || g.Tok != token.VAR {
+				continue
+			}
+			for _, s := range g.Specs {
+				for _, n := range s.(*ast.ValueSpec).Names {
+					if strings.HasPrefix(n.Name, "Err") && !notAWireSentinel[n.Name] {
+						out = append(out, n.Name)
+					}
 				}
 			}
 		}
